@@ -87,6 +87,7 @@ type checker struct {
 	dcov                                                                                    map[string]any
 	ecov                                                                                    map[string]any
 	hfcov                                                                                   map[string]any
+	gcov                                                                                    map[string]any
 	fam                                                                                     string // "" = family single; familyHF for the checker of hf_test.go
 	famStats                                                                                []*famStat
 }
@@ -391,6 +392,17 @@ func TestCheck(t *testing.T) {
 		return
 	}
 
+	if os.Getenv("C04_ONLY") == "ghost" { // development aid: layer F alone (with VERIF_REPO=<scratch worktree>)
+		hw, err := buildWorldHF(false, 0, true)
+		if err != nil {
+			fmt.Println("CHECK-ERROR:", err)
+			os.Exit(3)
+		}
+		gcov, n := c.runGhost(hw)
+		r.Finish(map[string]any{"states": gcov["distinct_case_outcomes"], "transitions": n, "traces_validated_against_impl": n, "layerF": gcov}, []string{"development run: layer F only"})
+		return
+	}
+
 	// ---- layer A ----
 	sps := spaces(r.Thorough())
 	seen, seenBlk := map[string]bool{}, map[string]bool{}
@@ -589,7 +601,11 @@ func TestCheck(t *testing.T) {
 		var eexecs, hexecs int
 		ecov, eexecs = c.runEscape(hw)
 		c.hfcov, hexecs = c.runHF(hw, hfTest, hfBlk)
-		cexecs += eexecs + hexecs
+		// ---- layer F: a ContractManagement operation inside a discarded call, the contract used again
+		// in the same transaction (ghost_test.go) ----
+		var gexecs int
+		c.gcov, gexecs = c.runGhost(hw)
+		cexecs += eexecs + hexecs + gexecs
 	}
 	c.ecov = ecov
 
@@ -697,10 +713,16 @@ func (c *checker) finish(r *vk.Run, all, blk []string, nsolo int, spaceInfo, hIn
 		"layerE_cases":                                  c.ecov["cases"],
 		"layerE_distinct_outcome_classes":               c.ecov["distinct_outcome_classes"],
 		"layerE_blocks":                                 c.ecov["blocks"],
-		"layerA_hf_all_programs_test_invocations":       c.hfcov["programs_test_invocations"],
-		"layerA_hf_all_programs_in_real_blocks":         c.hfcov["programs_in_real_blocks"],
-		"layerA_hf_all_distinct_final_states":           c.hfcov["distinct_final_states"],
-		"layerA_on_family_single_hf_all":                c.hfcov,
+		"layerF_ghost_contract_used_after_discarded_management_operation": c.gcov,
+		"layerF_cases":                             c.gcov["cases"],
+		"layerF_blocks":                            c.gcov["blocks"],
+		"layerF_distinct_case_outcomes":            c.gcov["distinct_case_outcomes"],
+		"layerF_distinct_results_of_halting_cases": c.gcov["distinct_results_of_halting_cases"],
+		"layerF_uses_that_see_the_kept_operation":  c.gcov["uses_that_see_the_kept_operation"],
+		"layerA_hf_all_programs_test_invocations":  c.hfcov["programs_test_invocations"],
+		"layerA_hf_all_programs_in_real_blocks":    c.hfcov["programs_in_real_blocks"],
+		"layerA_hf_all_distinct_final_states":      c.hfcov["distinct_final_states"],
+		"layerA_on_family_single_hf_all":           c.hfcov,
 		"rule": "states = distinct final model states; transitions = contract calls (entry, RUN, native, payment callback) executed by the model; " +
 			"every program is executed on the real code and compared in VM state, op log, notifications, storage of all instances, GAS/NEO balances, Policy fee",
 	}
@@ -718,6 +740,7 @@ func (c *checker) finish(r *vk.Run, all, blk []string, nsolo int, spaceInfo, hIn
 		"layer E (family single-hf-all: every hardfork from genesis; instance C = x.go.txt with System.Storage.Local.* as its storage ops): a callee that runs an operation and then fails, caught by a caller, must leave exactly what its twin leaves in which the callee does nothing before failing (ABORTs where the operation itself is refused) - for each of the 16 call flag sets and every way the flags reach the callee; which operations are allowed under which flag set is derived by trying and reported (`allowed`/`changes-state` masks), it is not part of the oracle",
 		"layer E, left out: a script started by System.Runtime.LoadScript that throws and is caught by the contract that loaded it gets no rollback layer at all (its flags are masked to ReadOnly, so on this tree it cannot change state); whether the property's 'called contract' includes such a script is not stated, so the completed-callee control runs of the loadscript operations are counted but not judged",
 		"layer A on single-hf-all: same reference interpreter; the only modelled difference is none (Local.Put/Delete/Get/Find of instance C are modelled as Put/Delete/Get/Find on its own storage, which is what the interop documentation promises)",
+		"layer F (ghost_test.go, family single-hf-all): a transaction in which a call that deploys / updates / destroys a contract is discarded (the exception is caught by a caller) and the contract is used again afterwards must be indistinguishable from its twin in which the discarded call does nothing before it fails - VM state, result, notifications, storage of all contracts and natives, state root, and the result of the following transaction of the same block; cases whose discarded part cannot complete on its own are dropped (counted); taken from the code: a call of an unknown contract / missing method / disallowed call is an uncatchable fault (the twin faults alike)",
 		"layer D does not compare values that contain transaction or block hashes across the two replicas (the scripts differ in one operand, so the hashes do); those sources are checked within one execution (second read equals the snapshot taken before the mutation) and through the ledger state",
 	})
 }
